@@ -46,9 +46,13 @@ Decode ==
         Step("Decode", <<f, k>>, Src, {})
 
 Import ==
+    \* tp: how the target was built - plain adds, optimized, or "shared": a value derived
+    \* from it (OffsetRange, as fragment.row does) is outstanding, so its containers are
+    \* frozen; the import must still land, and the derived value must not change
     \E f \in Formats : \E k \in Kinds : \E clear \in BOOLEAN : \E rowSize \in RowSizes :
+      \E tp \in {"plain", "optimized", "shared"} :
         /\ Src # {}
-        /\ Step("Import", <<f, k, clear, rowSize>>,
+        /\ Step("Import", <<f, k, clear, rowSize, tp>>,
                 IF clear THEN Tgt \ Src ELSE Tgt \cup Src,
                 IF clear THEN Src \cap Tgt ELSE Src \ Tgt)
 
